@@ -21,6 +21,11 @@ func genStrTmplCase(r *Rng, out *outFiles, idx int) {
 		for j := 0; j < k; j++ {
 			s += string(pool[r.Intn(len(pool))])
 		}
+		if r.Chance(20) { // text that LOOKS like a character reference is ordinary text inside a literal
+			at := r.Intn(len([]rune(s)) + 1)
+			rs := []rune(s)
+			s = string(rs[:at]) + r.Pick([]string{"&amp;", "&lt;", "&gt;", "&#65;", "&#x41;", "&eacute;", "&amp", "&lt", "&nbsp;", "&#39;x", "&amp;amp;"}) + string(rs[at:])
+		}
 		out.count("random")
 	}
 	var lit string
